@@ -11,8 +11,10 @@ an object with `session_id` standing in for the RTSP session, `monotonic`/`monot
 and `asyncio.sleep` in the stream_client namespace replaced by a scripted clock whose
 random lag makes the loop take its compensation branch.
 
-Model lines (Driver/C16.lean): `stream`, `ctrl`, `ctrlat`, `backlog`-free `fifo`.
-The compensation decisions fed to the model are the ones *observed* on the real run.
+Model lines (Driver/C16.lean): `stream`, `ctrl`, `ctrlat`, `load`, `fifo`.
+The compensation decisions fed to the model are the ones *observed* on the real run; for an
+encrypted v2 run the datagrams in the model's backlog are the observed ones (`load`: the
+cipher is a parameter of the model), payloads are compared after opening them.
 """
 import asyncio
 import random
@@ -174,7 +176,11 @@ def execute(case):
     clock = Clock(case["lagseed"], case["lagp"])
     frame_size = case["channels"] * case["bps"]
     data = source_bytes(case)
-    saved = (sc.monotonic, sc.monotonic_ns, sc.asyncio, raop_protocols.randrange, timing.ntp_now)
+    try:
+        saved = (sc.monotonic, sc.monotonic_ns, sc.asyncio, raop_protocols.randrange, timing.ntp_now)
+    except AttributeError as ex:  # the code no longer has the names the scripted clock replaces
+        obs["error"] = "harness-setup: %s" % ex
+        return obs
 
     async def go():
         context = raop_protocols.StreamContext()
